@@ -72,9 +72,9 @@ def text_line(rng):
 
 def plan(ctx):
     items = []
-    for i in range(ctx.n(2200, 50000)):
+    for i in range(ctx.n(6000, 100000)):
         items.append(('gen', engine.stable_hash((ctx.seed, 'c04', i))))
-    for i in range(ctx.n(250, 5000)):
+    for i in range(ctx.n(400, 6000)):
         items.append(('real', engine.stable_hash((ctx.seed, 'c04r', i))))
     return items
 
